@@ -137,12 +137,36 @@ def undefined_constant(t) -> bool:
 _EXPECTED = re.compile(r"expected=(-?\d+)")
 
 
+_prelude_done = []
+
+
+def prelude() -> None:
+    """Once per worker process, before anything is judged: print constants that are EQUAL to small integers but are not ints
+    (integral floats, booleans), plainly and inside sums.  Whatever the library remembers about them must not colour how the
+    integers themselves are printed afterwards."""
+    if _prelude_done:
+        return
+    _prelude_done.append(1)
+    import dltype
+
+    a = dltype.VariableAxis("a")
+    for v in list(range(0, 17)) + [100, 112, 256, 257, 512, 1000]:
+        for spelled in (float(v), bool(v) if v in (0, 1) else float(-v)):
+            for build in (lambda c: dltype.LiteralAxis(c), lambda c: a + c, lambda c: dltype.Shape[a, dltype.LiteralAxis(c)]):
+                try:
+                    str(build(spelled))
+                except BaseException:  # noqa: BLE001, S110
+                    pass
+
+
 def impl_sym(a: dict) -> dict:
     from typing import Annotated
 
     import numpy as np
 
     import dltype
+
+    prelude()
 
     class P:
         s: dict = {}
@@ -242,6 +266,7 @@ def impl_shape(a: dict) -> dict:
     """Worker side: str(Shape[...]), the annotation built from it, and the annotation built from the printed string."""
     import dltype
 
+    prelude()
     try:
         shape = eval(a["src"], {"dltype": dltype})  # noqa: S307
         text = str(shape)
